@@ -86,7 +86,12 @@ def _vec_obj(rng, d, fams=None):
         c = [rng.choice([-2.0, -1.0, -0.5, 0.0, 0.5, 1.0, 2.0]) for _ in range(d)]
     else:
         c = [_dy(rng, -4, 4) for _ in range(d)]
-    return {"fam": fam, "a": rng.choice([1, 1, 1, 2, 0.5, 3, -1, -0.5]), "b": rng.choice([0, 0, -7, 2.5, 100]), "c": c}
+    a, b = rng.choice([1, 1, 1, 2, 0.5, 3, -1, -0.5]), rng.choice([0, 0, -7, 2.5, 100])
+    if rng.random() < 0.12:
+        # objectives in tiny units (the whole landscape within 1e-11): "better" is an order relation, no absolute
+        # epsilon may decide whether an improvement counts
+        a, b = a * 2.0 ** rng.choice([-44, -50, -60]), 0
+    return {"fam": fam, "a": a, "b": b, "c": c}
 
 
 def _perm_obj(rng, n):
@@ -98,7 +103,10 @@ def _perm_obj(rng, n):
         for j in range(n):
             if i != j:
                 m[i][j] = m[j][i] if (sym and j < i) else rng.randint(1, 9)
-    return {"fam": rng.choice(PERM_FAMILIES), "a": rng.choice([1, 1, 2, -1]), "b": rng.choice([0, 0, 5]), "c": m}
+    a, b = rng.choice([1, 1, 2, -1]), rng.choice([0, 0, 5])
+    if rng.random() < 0.12:
+        a, b = a * 2.0 ** rng.choice([-44, -50, -60]), 0
+    return {"fam": rng.choice(PERM_FAMILIES), "a": a, "b": b, "c": m}
 
 
 def _stop(rng, max_iter):
